@@ -67,10 +67,14 @@ UNITS['inv'] = ('inv.rs', [('set_bit', r'pub fn set_bit\(&mut self, n: usize, to
                           ('is_even', (r'\bimpl U256 \{', r'pub fn is_even\(&self\) -> bool'), extract.rewrite_inv),
                           ('div2', r'pub fn div2\(&mut self, modulo: &U256\)', extract.rewrite_inv),
                           ('invert', r'pub fn invert\(&mut self, modulo: &U256, rsquared: &U256\)', extract.rewrite_inv),
+                          ('fq_div2', (r'impl Fq \{', r'pub fn div2\(mut self\) -> Self'), extract.rewrite_inv),
                           ('fq_is_zero', r'fn is_zero\(&self\) -> bool \{ self\.0\.is_zero\(\) \}\s*\}\s*impl One for Fq', extract.rewrite_inv),
                           ('fq_inverse', r'fn inverse\(&self\) -> Option<Self> \{\s*if self\.is_zero\(\) \{\s*None\s*\} else \{\s*let mut a = self\.0;\s*a\.invert\(&FQ,', extract.rewrite_inv)])
 UNITS['divrem'] = ('divrem.rs', [('bit_length', r'pub fn bit_length\(&self\) -> usize', extract.rewrite_divrem),
-                                ('divrem', r'pub fn divrem\(&self, modulo: &U256\) -> \(Option<U256>, U256\)', extract.rewrite_divrem)])
+                                ('divrem', r'pub fn divrem\(&self, modulo: &U256\) -> \(Option<U256>, U256\)', extract.rewrite_divrem),
+                                ('u256_get_bit', (r'\bimpl U256 \{', r'pub fn get_bit\(&self, n: usize\) -> Option<bool>'), extract.rewrite_inv),
+                                ('u256_bits', (r'\bimpl U256 \{', r'pub fn bits\(&self\) -> BitIterator'), extract.rewrite_inv),
+                                ('bititer_next', (r"impl<'a> Iterator for BitIterator<'a>", r'fn next\(&mut self\) -> Option<bool>'), extract.rewrite_inv)])
 _FR = [('u256_is_zero', None), ('u256_add', None), ('u256_sub', None), ('u256_neg', None), ('u256_mul2', None),
        ('fq_into_u256', r'fn from\(mut a: Fr\) -> Self'),
        ('fq_new', r'pub fn new\(mut a: U256\) -> Option<Self> \{\s*if a < \*FR'),
@@ -85,9 +89,9 @@ _FR = [('u256_is_zero', None), ('u256_add', None), ('u256_sub', None), ('u256_ne
 UNITS['fpr'] = ('fp.rs', [(m, h or dict((a, b) for a, b, _ in UNITS['fp'][1])[m], extract.rewrite_fp) for m, h in _FR])
 UNITS['invr'] = ('inv.rs', [(m, {'fq_is_zero': r'fn is_zero\(&self\) -> bool \{ self\.0\.is_zero\(\) \}\s*\}\s*impl One for Fr',
                                    'fq_inverse': r'fn inverse\(&self\) -> Option<Self> \{\s*if self\.is_zero\(\) \{\s*None\s*\} else \{\s*let mut a = self\.0;\s*a\.invert\(&FR,'}.get(m, h), rw)
-                            for m, h, rw in UNITS['inv'][1]])
+                            for m, h, rw in UNITS['inv'][1] if m != 'fq_div2'])
 VARIANT = {'fpr': dict(subst=[('Fq', 'Fr'), ('FQ', 'FR'), ('fqv', 'frv')], drop=['sum_of_products'], drop_fns=[r'(?:pub )?fn witness_sop_precondition\('], prefix='FR')}
-VARIANT['invr'] = VARIANT['fpr']
+VARIANT['invr'] = dict(VARIANT['fpr'], drop=['sum_of_products', 'fq_div2'])   # Fq::div2 exists only for Fq
 
 DEPENDS = {'divrem': ['mul', 'square', 'sop', 'fp', 'inv'], 'inv': ['mul', 'square', 'sop', 'fp'], 'invr': ['mul', 'square', 'sop', 'fpr'], 'square': ['mul'], 'sop': ['mul'], 'fp': ['mul', 'square', 'sop'], 'fpr': ['mul', 'square', 'sop']}
 
@@ -230,11 +234,19 @@ def run_unit(unit, expanded_text, workdir):
     unsupported = [e for e in errs if 'not yet support' in e[0] or 'unsupported' in e[0].lower() or 'cannot find' in e[0] or 'mismatched types' in e[0] or 'expected' in e[0]]
     lines = open(full).read().split('\n')
     def enclosing(ln):
-        for k in range(ln - 1, -1, -1):
-            mm = re.match(r'^\s*(?:pub )?(?:open spec |closed spec |proof |const )?fn (\w+)', lines[k])
-            if mm:
-                return mm.group(1)
-        return '?'
+        # the region marker (unique) when the line lies inside //@BEGIN marker .. //@END, else the enclosing fn item
+        fn = None
+        for k in range(min(ln, len(lines)) - 1, -1, -1):
+            if lines[k].startswith('//@END'):
+                break
+            mb = re.match(r'^//@BEGIN (\w+)', lines[k])
+            if mb:
+                return mb.group(1)
+            if fn is None:
+                mm = re.match(r'^\s*(?:pub )?(?:open spec |closed spec |proof |const )?fn (\w+)', lines[k])
+                if mm:
+                    fn = mm.group(1)
+        return fn or '?'
     detail = '; '.join('%s in fn %s (line %d)' % (e[0], enclosing(e[1]), e[1]) for e in errs[:5])
     if errors == 0 and not errs and verified and verified > 0 and p.returncode == 0:
         status = 'discharged'
